@@ -3,6 +3,7 @@
 package vaa
 
 import (
+	"sync/atomic"
 	"math/big"
 	"crypto/ecdsa"
 	"encoding/hex"
@@ -235,6 +236,31 @@ func TestVerifC06(t *testing.T) {
 				emit("mirrored-high-s", w, addrs, 1)
 			}
 		}
+		// a guardian list with an ALL-ZERO address at one position (nobody holds its key) and, at that position, signature bytes that do not
+		// recover at all: "recovers to the address at the index it claims" is false, whatever a failed recovery is made to stand for
+		if k > 0 && !repeated {
+			w = mk()
+			d = r.below(k)
+			az := append([]common.Address{}, addrs...)
+			az[w.Signatures[d].Index] = common.Address{}
+			for _, bad := range []string{"zero", "recid4", "ff"} {
+				c = *w.Signatures[d]
+				switch bad {
+				case "zero":
+					c.Signature = SignatureData{}
+				case "recid4":
+					c.Signature[64] = 4
+				default:
+					for i := range c.Signature {
+						c.Signature[i] = 0xff
+					}
+				}
+				w2 := *w
+				w2.Signatures = append([]*Signature{}, w.Signatures...)
+				w2.Signatures[d] = &c
+				emit("zero-address-unrecoverable-"+bad, &w2, az, 0)
+			}
+		}
 		// malformed signature bytes
 		for _, kind := range []string{"recid>=4", "zero-sig", "r=0", "s>=order", "sig-bitflip"} {
 			w = mk()
@@ -300,4 +326,86 @@ func boolToInt(b bool) int {
 		return 1
 	}
 	return 0
+}
+
+
+// TestVerifC06Conc : VerifySignatures from several goroutines at once on VAAs with large payloads (valid ones and ones whose body was changed
+// after signing); each verdict must be the sequential one.  Rows "c06conc" (monitors only).
+func TestVerifC06Conc(t *testing.T) {
+	r := &vrng{s: verifSeed() ^ 0xc06c}
+	o := verifOut(t)
+	defer o.close()
+	keys := make([]*ecdsa.PrivateKey, 5)
+	addrs := make([]common.Address, 5)
+	for i := range keys {
+		keys[i] = verifKey(r)
+		addrs[i] = crypto.PubkeyToAddress(keys[i].PublicKey)
+	}
+	type job struct {
+		v    *VAA
+		want bool
+	}
+	jobs := []job{}
+	for i := 0; i < 12; i++ {
+		v, _, _ := verifRandVAA(r, 0, 200000+r.below(300000), true)
+		for k := 0; k < 4; k++ {
+			v.AddSignature(keys[k], uint8(k))
+		}
+		jobs = append(jobs, job{v, true})
+		w := *v
+		w.Payload = append([]byte{}, v.Payload...)
+		w.Payload[len(w.Payload)-1-r.below(1000)] ^= 1
+		jobs = append(jobs, job{&w, false})
+	}
+	workers, per := 8, 40
+	if verifThorough() {
+		per = 400
+	}
+	var wrongAcc, wrongRej, panics int64
+	done := make(chan struct{}, workers)
+	for wk := 0; wk < workers; wk++ {
+		go func(wk int) {
+			defer func() { done <- struct{}{} }()
+			for i := 0; i < per; i++ {
+				j := jobs[(wk*7+i)%len(jobs)]
+				func() {
+					defer func() {
+						if recover() != nil {
+							atomic.AddInt64(&panics, 1)
+						}
+					}()
+					got := j.v.VerifySignatures(addrs)
+					if got && !j.want {
+						atomic.AddInt64(&wrongAcc, 1)
+					}
+					if !got && j.want {
+						atomic.AddInt64(&wrongRej, 1)
+					}
+				}()
+			}
+		}(wk)
+	}
+	stuck := false
+	deadline := time.After(120 * time.Second)
+	for k := 0; k < workers && !stuck; k++ {
+		select {
+		case <-done:
+		case <-deadline:
+			stuck = true
+		}
+	}
+	mon := []string{}
+	if a := atomic.LoadInt64(&wrongAcc); a > 0 {
+		mon = append(mon, fmt.Sprintf("under concurrent callers VerifySignatures ACCEPTED %d times a VAA whose body was changed after signing (%d workers x %d calls)", a, workers, per))
+	}
+	if a := atomic.LoadInt64(&wrongRej); a > 0 {
+		mon = append(mon, fmt.Sprintf("under concurrent callers VerifySignatures REJECTED %d times a validly signed VAA (%d workers x %d calls)", a, workers, per))
+	}
+	if a := atomic.LoadInt64(&panics); a > 0 {
+		mon = append(mon, fmt.Sprintf("VerifySignatures panicked %d times under concurrent callers", a))
+	}
+	if stuck {
+		mon = append(mon, "concurrent VerifySignatures calls did not return within 120 s")
+	}
+	o.emit(map[string]interface{}{"k": "c06conc", "workers": workers, "calls": workers * per, "mon": mon})
 }
